@@ -724,7 +724,7 @@ Hypothesis Hacc : types_accb = true.
 Hypothesis Hbond : bonds_okb = true.
 
 Lemma real_vocab_wf : vocab_wf.
-Proof. unfold types_accb in Hacc. apply andb_prop in Hacc. destruct Hacc as [W _]. now apply vocab_wfb_sound. Qed.
+Proof. pose proof Hacc as H. unfold types_accb in H. apply andb_prop in H. destruct H as [W _]. exact (vocab_wfb_sound W). Qed.
 
 Lemma real_good_atom (a : atom RV) : wf_label (a_label a) = true -> in_dom (a_ty a) = true -> good_atom RV a.
 Proof.
@@ -823,7 +823,7 @@ Hypothesis Hbond : bonds_okb = true.
 
 Lemma types_okb_accb : types_accb = true.
 Proof.
-  unfold types_okb in Hok. unfold types_accb. apply andb_prop in Hok. destruct Hok as [W H]. rewrite W. cbn [andb].
+  pose proof Hok as H0. unfold types_okb in H0. unfold types_accb. apply andb_prop in H0. destruct H0 as [W H]. rewrite W. cbn [andb].
   unfold all_triples in *. apply forallb_forall. intros e He. rewrite forallb_forall in H. specialize (H e He).
   apply forallb_forall. intros t Ht. rewrite forallb_forall in H. specialize (H t Ht).
   apply forallb_forall. intros g Hg. rewrite forallb_forall in H. specialize (H g Hg). now apply triple_okb_accb.
